@@ -453,8 +453,11 @@ Fixpoint run (st : state) (ops : list (Z * Z * Z * Z * Z)) : state * list Z :=
    RTDC_Dict with a fresh Filter *)
 Definition init_root (n : nat) (cols : list col) : level :=
   let c := mkcfg (repeat None NSLOT) true false in
+  (* _man_root_ids/_root_ids/_parent_hash do not exist in a plain Filter;
+     they are given the values they would have if the root were the
+     all-selected child of itself, which keeps the invariants uniform *)
   let f := mkfilt (repeat None NSLOT) None (repeat true n) (repeat true n)
-                  [] (iota 0 n) ([], []) in
+                  [] (iota 0 n) (repeat true n, iota 0 n) in
   mklevel c f (Z.of_nat n)
           (map (fun d => Some d) (firstn 3 cols) ++ [None; None]).
 
@@ -465,3 +468,55 @@ Definition init (n : nat) (cols : list col) : state :=
 Definition run_flat (case : Z * list col * list (Z * Z * Z * Z * Z)) : list Z :=
   let '(n, cols, ops) := case in
   snd (run (init (Z.to_nat n) cols) ops).
+
+(* ---- specification of the manual exclusions: the user's intent ---------- *)
+(* per dataset of the chain (youngest first, parallel to the levels): the root
+   ids of the events the user has excluded there and not re-included since,
+   and of all events the user has ever excluded there *)
+Record ghost := mkghost { g_excl : list Z; g_ever : list Z }.
+
+(* the user writes ds.filter.manual[i mod size] = v: position i of the
+   dataset as the user sees it is the root event (f_rids f)[i] *)
+Definition spec_manual (l : level) (i : Z) (v : bool) (g : ghost) : ghost :=
+  let f := l_filt l in
+  let n := Z.of_nat (length (f_manual f)) in
+  if n =? 0 then g
+  else
+    let r := nth (Z.to_nat (i mod n)) (f_rids f) (-1) in
+    if v then mkghost (filter (fun x => negb (x =? r)) (g_excl g)) (g_ever g)
+    else mkghost (r :: g_excl g) (r :: g_ever g).
+
+Definition spec_step (st : state) (gs : list ghost) (op : Z * Z * Z * Z * Z)
+  : list ghost :=
+  let '(tag, a, b, c, d) := op in
+  let ls := s_levels st in
+  if tag =? 1 then
+    let pos := pos_of ls a in
+    match nth_error ls pos, nth_error gs pos with
+    | Some l, Some g => set_nth pos (spec_manual l b (negb (c =? 0)) g) gs
+    | _, _ => gs
+    end
+  else if tag =? 6 then
+    match ls with
+    | [] => gs
+    | _ => if Nat.leb (length ls) MAXDEPTH then mkghost [] [] :: gs else gs
+    end
+  else gs.
+
+Fixpoint spec_run (st : state) (gs : list ghost)
+         (ops : list (Z * Z * Z * Z * Z)) : state * list ghost :=
+  match ops with
+  | [] => (st, gs)
+  | o :: ops' => spec_run (fst (step st o)) (spec_step st gs o) ops'
+  end.
+
+(* interface of the correspondence check, with the user's intent as tracked
+   by the specification appended (root first) *)
+Definition enc_ghost (g : ghost) : list Z :=
+  sort_uniq (g_excl g) ++ [-7] ++ sort_uniq (g_ever g) ++ [-7].
+
+Definition run_both (case : Z * list col * list (Z * Z * Z * Z * Z)) : list Z :=
+  let '(n, cols, ops) := case in
+  let st0 := init (Z.to_nat n) cols in
+  snd (run st0 ops) ++ [-5]
+  ++ flat_map enc_ghost (rev (snd (spec_run st0 [mkghost [] []] ops))).
